@@ -150,17 +150,25 @@ def errno_conformance(events):
             kind, e = events[i][1], events[i][2]
             if kind not in ("send_err", "recv_err"):
                 continue
-            # the decisions this thread takes before its next socket call
+            # ... the decisions this thread takes until the method that made the call and handles its
+            # outcome (_flush_exception for a send, handle_read for a recv) returns
             decs = []
             cut = False
+            depth = 0
+            closer = "_flush_exception" if kind == "send_err" else "handle_read"
             for j in idxs[k + 1:]:
                 k2, d2 = events[j][1], events[j][2]
-                if k2 in ("sock_send", "sock_recv", "select"):
-                    break
-                if k2 == "decide":
+                if k2 == "enter":
+                    depth += 1
+                elif k2 == "exit":
+                    if depth > 0:
+                        depth -= 1
+                    elif d2 == closer:
+                        break
+                elif k2 == "decide":
                     decs.append(d2[0])
             else:
-                cut = True       # the run ended before the thread's next socket call
+                cut = True       # the run ended inside that method
             is_io = (t == "io")
             if kind == "send_err":
                 if e in WOULDBLOCK:
@@ -170,11 +178,12 @@ def errno_conformance(events):
                 else:
                     want = ["flush_err_io" if is_io else "flush_err_w"]
                 got = [x for x in decs if x in ("handle_close", "flush_err_io", "flush_err_w", "handle_close_by_worker")]
-                if is_io and want == ["flush_err_io"] and got[:1] == want:
-                    got = got[:1]        # handle_write goes on to handle_close: a later decision
             else:
                 want = ["handle_close", "eof"] if e in EXPECTED_DISCONNECTED else ["handle_close"]
                 got = [x for x in decs if x in ("handle_close", "eof")]
+            if want:
+                got = got[:len(want)]    # what the same method decides afterwards (handle_write going on
+                                         # to handle_close) is not this error's decision
             if got != want and not (cut and got == want[:len(got)]):
                 problems.append({"event": i, "thread": t, "call": kind[:4], "errno": e, "errno_name": errno_name(e),
                                  "expected_decisions": want, "observed_decisions": got})
